@@ -55,7 +55,9 @@ TNext ==
                    /\ yielded' = yielded \cup {i}
                    /\ UNCHANGED <<spawned, fh, coords, caseNo>>
          [] r.ev = "Chunk" ->
-              UNCHANGED <<vars, spawned, yielded, fh, coords, caseNo>>
+              \* a buffered consumer is handed non-empty chunks of at most B items (B = 0: single items)
+              /\ IF r.len >= 1 /\ r.len <= (IF B = 0 THEN 1 ELSE B) THEN TRUE ELSE Fail("chunk_size", r)
+              /\ UNCHANGED <<vars, spawned, yielded, fh, coords, caseNo>>
          [] r.ev = "EndCase" ->
               /\ IF r.hang = 1 THEN Fail("hang", r)
                  ELSE IF Keep \ yielded # {} THEN Fail("lost", [r EXCEPT !.ev = "EndCase"] @@ [missing |-> Keep \ yielded])
